@@ -507,6 +507,7 @@ func (c *Compiler) checkFeatures() error {
 	filteredFeatures := newFeaturesMap()
 	for _, module := range c.modules {
 		m := module.GetModule()
+		verifOrder(2, m.Name())
 		dupChk := make(map[string]bool)
 		for _, feat := range m.ChildrenByType(parse.NodeFeature) {
 			if _, ok := dupChk[feat.Name()]; ok {
@@ -572,6 +573,7 @@ func (c *Compiler) checkIdentities() error {
 	// Process derived identities, building
 	// identity tree.
 	for name, ident := range ids {
+		verifOrder(3, name)
 		for _, base := range ident.ChildrenByType(parse.NodeBase) {
 			mod, tIdent := c.getModuleAndReference(ident.Root(), base, parse.NodeIdentity)
 			tnm := mod.Name() + ":" + tIdent.Name()
@@ -632,6 +634,7 @@ func (c *Compiler) ExpandModules() (err error) {
 	//Process imports
 	g := tsort.New()
 	for mn, module := range c.modules {
+		verifOrder(1, mn)
 		r := module.GetModule()
 		g.AddVertex(mn)
 		for _, i := range r.ChildrenByType(parse.NodeImport) {
